@@ -22,6 +22,18 @@ B = z3.BoolSort()
 DONE = z3.Const('the_private_DONE_sentinel', ValS)
 
 
+def sentinel_obligation(E, Qn):
+    """the contracts ASSUME that no source element is the end-of-stream marker: true only for a fresh private
+    object -- the module must define it as `object()`"""
+    import ast as _ast
+    d = E.modules[MOD].assigns.get('_DONE')
+    ok = isinstance(d, _ast.Call) and isinstance(d.func, _ast.Name) and d.func.id == 'object' and not d.args \
+        and not d.keywords
+    E.oblige(Qn + '/sentinel.end_marker_is_a_fresh_private_object', z3.BoolVal(bool(ok)), props={'C16', 'C03'},
+             detail='_DONE = %s: a source may yield that value (None, a constant, ...) and the stream then ends early'
+                    % (_ast.unparse(d) if d is not None else '<not a module-level assignment>'))
+
+
 def engine(E, props):
     stubs.install_all(E)
     aio.install(E)
@@ -281,6 +293,7 @@ def t_to_async_iter(E):
         Bn['__await_ext__'] = aw_future
         executor_with(E, st, Qn)
         st['must_be_worker'] = is_iter.t
+        sentinel_obligation(E, Qn)
         E.cover(Qn + '/requires')
         E.canary(Qn + '/canary@entry')
         try:
@@ -439,6 +452,7 @@ def t_to_sync_iter(E):
         executor_with(E, st, Qn)
         given = E.fresh_bool('loop_given')
         loop_arg = E.fresh_val('given_loop', LoopS) if E.branch(given.t) else NONE
+        sentinel_obligation(E, Qn)
         E.cover(Qn + '/requires')
         E.canary(Qn + '/canary@entry')
         try:
@@ -521,6 +535,11 @@ def install_c17(E, st, Qn):
     closed = lambda: wget(E, 'closed', lambda: E.fresh('closed', z3.ArraySort(LoopS, B)))        # noqa: E731
     forever = lambda: wget(E, 'runs_forever', lambda: E.fresh('runs_forever', z3.ArraySort(LoopS, B)))  # noqa: E731
     st['running'], st['closed'], st['forever'] = running, closed, forever
+    # a loop may be run by a thread of the USER (threading.Thread(target=loop.run_forever)): such a runner holds
+    # none of the library's locks; it is running for the whole call (starting/stopping it meanwhile is the user's
+    # race, not the helpers')
+    foreign = lambda: wget(E, 'run_by_a_user_thread', lambda: E.fresh('run_by_a_user_thread', z3.ArraySort(LoopS, B)))  # noqa: E731
+    st['foreign'] = foreign
 
     def rcts(E_, a, k):
         """run_coroutine_threadsafe(coro, loop): schedules coro on loop (RuntimeError iff closed); the coroutine
@@ -567,6 +586,8 @@ def install_c17(E, st, Qn):
                     E.oblige('%s/pre(run_until_complete).holds_the_per_loop_lock' % st['top'],
                              z3.BoolVal(any(z3.eq(l, o.t) for l in st.get('held_loop_locks', []))), props={'C17'},
                              detail='a loop must never be run by two threads at once')
+                    if E.branch(z3.Select(running(), o.t)):
+                        E.throw('RuntimeError', origin='already-running')
                     st.setdefault('ran', []).append(('until_complete', o.t))
                     return evaluate(E, st, a[0], o.t, node)
                 return VStub('loop.run_until_complete', ruc)
@@ -595,6 +616,10 @@ def install_c17(E, st, Qn):
                 return VStub('loop.call_soon_threadsafe', cst)
             if name == 'stop':
                 return VStub('loop.stop', lambda E_, a, k: NONE, attrs={'loop': o})
+        if isinstance(o, Obj) and o.cls == 'LoopLock' and name == 'locked':
+            # held by whoever runs the loop THROUGH THIS LIBRARY; a loop run by a plain thread of the user holds no
+            # such lock: says nothing about loop.is_running()
+            return VStub('Lock.locked', lambda E_, a, k: VBool(E.fresh('loop_lock_locked', B)))
         if isinstance(o, Obj) and o.cls == 'Executor' and name == 'submit':
             def submit(E_, a, k):
                 st['submitted'] = (a[0], list(a[1:]))
@@ -646,7 +671,7 @@ def install_c17(E, st, Qn):
             def enter():
                 # blocks until no other thread runs the loop (lock invariant: free => nobody runs it)
                 st.setdefault('held_loop_locks', []).append(cm.fields['loop'])
-                E.w['running'] = z3.Store(running(), cm.fields['loop'], False)
+                E.w['running'] = z3.Store(running(), cm.fields['loop'], z3.Select(st['foreign'](), cm.fields['loop']))
                 return cm
 
             def exit_(exc):
@@ -680,6 +705,7 @@ def t_ensure_aw(E):
         aw = E.fresh_val('aw')
         E.assume(z3.Select(st['running'](), me_loop))
         E.assume(z3.Implies(z3.Select(st['closed'](), target), z3.Not(z3.Select(st['running'](), target))))
+        E.assume(z3.Implies(z3.Select(st['foreign'](), target), z3.Select(st['running'](), target)))
         pre_closed = z3.Select(st['closed'](), target)
         pre_running = z3.Select(st['running'](), target)
         E.cover(Qn + '/requires')
